@@ -165,6 +165,7 @@ pub fn syntax_spaces(tier: Tier, oracle: Oracle) -> Vec<Box<dyn Space>> {
         spines(0, false, false, false, oracle),
         spines(1, false, false, false, oracle),
         spines(2, false, false, false, oracle),
+        spines(3, false, false, false, oracle),
         grid(0, false, false, oracle),
         grid(1, false, false, oracle),
         sequences(2, false, false, oracle),
@@ -173,7 +174,6 @@ pub fn syntax_spaces(tier: Tier, oracle: Oracle) -> Vec<Box<dyn Space>> {
         expressions("three_op", 1, oracle),
     ];
     if tier.is_thorough() {
-        v.push(spines(3, false, false, false, oracle));
         v.push(grid(2, false, false, oracle));
         v.push(spines(4, true, false, false, oracle));
         v.push(spines(5, true, false, false, oracle));
